@@ -148,16 +148,26 @@ def check_props(prop):
     cur = None
     blocks = re.split(r"(?m)^(?=Closed under the global context|Axioms:)", log)
     n_closed = log.count("Closed under the global context")
-    axioms = re.findall(r"(?ms)^Axioms:\n(.*?)(?=^\S|\Z)", log)
+    # `Print Assumptions` prints "Axioms:" then, per axiom, its name at column 0 followed by indented type lines
     bad_axioms = []
     used = []
-    for blk in axioms:
-        for line in blk.splitlines():
-            m = re.match(r"^([A-Za-z0-9_.']+)\s*:", line.strip())
-            if m:
-                used.append(m.group(1))
-                if m.group(1) not in ALLOWED_AXIOMS and m.group(1).split(".")[-1] not in ALLOWED_AXIOMS:
-                    bad_axioms.append(m.group(1))
+    in_ax = False
+    for line in log.splitlines():
+        if line.strip() == "Axioms:":
+            in_ax = True
+            continue
+        if not in_ax:
+            continue
+        if line[:1] in (" ", "\t"):
+            continue
+        m = re.match(r"^([A-Za-z_][A-Za-z0-9_.']*)\s*(:.*)?$", line)
+        if m:
+            name = m.group(1)
+            used.append(name)
+            if name not in ALLOWED_AXIOMS and name.split(".")[-1] not in {a.split(".")[-1] for a in ALLOWED_AXIOMS}:
+                bad_axioms.append(name)
+        else:
+            in_ax = False
     res["assumptions"] = {"closed": n_closed, "axioms_used": sorted(set(used)), "not_allowed": sorted(set(bad_axioms))}
     if ok and not bad_axioms:
         res["ok"] = True
